@@ -7,9 +7,12 @@ import (
 	"hash/fnv"
 	"math"
 	"reflect"
+	"slices"
+	"sort"
 	"testing"
 	"unsafe"
 
+	"pgregory.net/rapid"
 	"verif/elem"
 )
 
@@ -144,8 +147,8 @@ func TestKits(t *testing.T) {
 			t.Fatalf("%q and %q do not collide", u, v)
 		}
 	}
-	if len(c17Names) > 32 || len(c11Names) > 32 || len(c12SeqNames) > 32 || len(c12LCSNames) > 32 {
-		t.Fatal("more than 32 classes in a label table")
+	if len(c17Names) > 64 || len(c11Names) > 64 || len(c12SeqNames) > 64 || len(c12LCSNames) > 64 {
+		t.Fatal("more than 64 classes in a label table (info.cls is a uint64)")
 	}
 	if c11Names[c11Elem] != "elem=int" || c12SeqNames[c12SeqElem] != "elem=int" || c12LCSNames[c12LCSElem] != "elem=int" || c17Names[c17Elem] != "elem=int" {
 		t.Fatal("the elem=<kind> classes do not start where the constants say")
@@ -191,4 +194,81 @@ func testKit[T any](t *testing.T, k *ek[T], vals []int) bool {
 		return false
 	}
 	return true
+}
+
+// countDistinctLCSTable is the bottom-up evaluation of the recurrence of
+// countDistinctLCS over the whole table (the form it was first written and
+// validated in); TestRefCountForms compares the two on larger inputs than
+// brute force reaches.
+func countDistinctLCSTable(a, b []int, S []int32) int64 {
+	m, n := len(a), len(b)
+	w := n + 1
+	if S[0] == 0 {
+		return 1
+	}
+	var syms []int
+	for _, x := range a {
+		if !slices.Contains(syms, x) && slices.Contains(b, x) {
+			syms = append(syms, x)
+		}
+	}
+	sort.Ints(syms)
+	k := len(syms)
+	next := func(s []int) []int32 {
+		nx := make([]int32, (len(s)+1)*k)
+		for q := 0; q < k; q++ {
+			nx[len(s)*k+q] = -1
+		}
+		for i := len(s) - 1; i >= 0; i-- {
+			copy(nx[i*k:(i+1)*k], nx[(i+1)*k:(i+2)*k])
+			if q := slices.Index(syms, s[i]); q >= 0 {
+				nx[i*k+q] = int32(i)
+			}
+		}
+		return nx
+	}
+	na, nb := next(a), next(b)
+	cnt := make([]int64, (m+1)*w)
+	for i := m; i >= 0; i-- {
+		for j := n; j >= 0; j-- {
+			L := S[i*w+j]
+			if L == 0 {
+				cnt[i*w+j] = 1
+				continue
+			}
+			var c int64
+			for q := 0; q < k; q++ {
+				ia, jb := int(na[i*k+q]), int(nb[j*k+q])
+				if ia < 0 || jb < 0 {
+					continue
+				}
+				if S[(ia+1)*w+jb+1]+1 == L {
+					c += cnt[(ia+1)*w+jb+1]
+					if c > lcsCountCap {
+						c = lcsCountCap
+					}
+				}
+			}
+			cnt[i*w+j] = c
+		}
+	}
+	return cnt[0]
+}
+
+func TestRefCountForms(t *testing.T) {
+	rapid.Check(t, func(rt *rapid.T) {
+		var a, b []int
+		switch rapid.IntRange(0, 2).Draw(rt, "shape") {
+		case 0:
+			a, b = genBlockPair(rt)
+		case 1:
+			a, b = genRoundPair(rt)
+		default:
+			a, b = genPair(rt, rapid.IntRange(1, 5).Draw(rt, "k"), 200)
+		}
+		S := lcsTable(a, b)
+		if x, y := countDistinctLCS(a, b, S), countDistinctLCSTable(a, b, S); x != y {
+			rt.Fatalf("countDistinctLCS(%v, %v) = %d top down, %d over the whole table", a, b, x, y)
+		}
+	})
 }
